@@ -160,57 +160,49 @@ i64_ @lengthOf(  tag
     // c
     } ,i8 body ,}
 ")).
-Eval vm_compute in ("<<<M1329>>>" ++ check (runes_of_ascii "options {
-    FixedStringPadFromLeft = true;
-    FixedStringPadChar = '0';
+Eval vm_compute in ("<<<M1570>>>" ++ check (runes_of_ascii "root packet repeatCount {
+    @lengthOf(u8x)
+    @calculatedFrom(""1"")
+    @tag(007)
+    repeat zchar[42] Header `" ++ [28040; 24687; 31867; 22411]%N ++ runes_of_ascii "`,
+    match options1 as asx {
+        255 : roots,
+    },// a // b
+    Header @lengthOf(options1) ``,
+    Header @lengthOf(len) `{ , }`,
+    o matchKey `u8 x,`,
 }
-packet Leg {
-    InPrice0 {
-        repeat string clOrdID,
-        int16 msgKind,
-        zchar[5] Px,
-    },
-    i16 f1,
-    repeat f64 Side2,
-    string Acct,
+
+packet packetx {
+    zchar[255] crc,
 }
-packet Cancel {
-    zchar[4] clOrdID,
-    string seqNo,
-    Leg,
-    @leftPad('0') char[11] OrderId,
-}
-packet Quote {
-    repeat char[4] sym,
-    f64 OrderId,
-    repeat Leg,
-    repeat i64 f1,
-    int16 Note,
-    zchar[3] count,
-}
-root packet Ack {
-    @leftPad(' ') char[10] sym,
-    InPx60 {
-        Cancel,
-        repeat char[1] f1,
-        string Tail,
-        repeat InNote55 {
-            int8 count,
-            f64 f1,
-            repeat Cancel,
+
+packet Logon {
+    body {
+        float {
+            repeat Logon trueish,
         },
-        char[] tag7,
-        repeat string msgKind,
     },
-    u8 lastPx,
-    match lastPx as Body {
-        152 : Quote,
-        173 : Cancel,
-        4 : Leg,
+    @calculatedFrom(""`tick`"")
+    repeat char[0] f32a,
+    match body as float {
+        [65535, """ ++ [28040; 24687]%N ++ runes_of_ascii """] : calculatedFrom,
     },
-    u16 Ref @calculatedFrom(""CRC32""),
-}
-")).
+    u32 float @calculatedFrom(""" ++ [233]%N ++ runes_of_ascii "t" ++ [233]%N ++ runes_of_ascii """),
+    string body @lengthOf(len) `
+        `,
+    u8x @calculatedFrom(""a\""b""),//	t
+    float64 options1 @calculatedFrom(""" ++ [128512]%N ++ runes_of_ascii """) `it's`,
+    //x
+    // trailing space 
+    match crc as chars {
+        3 : options1,
+        [10] : _x,
+        [""{,}""] : options1,
+        [7, ""CRC32"", ""a\\"", ""a\\"", ""packet""] : As,
+    },
+    i16 msg_type,
+}")).
 Eval vm_compute in ("<<<M1857>>>" ++ check (runes_of_ascii "packet pack {
     @lengthOf(Foo)
     asx @lengthOf(_x),
@@ -453,31 +445,36 @@ root packet Order {
     },
     u32 seqNo @calculatedFrom(""CRC32""),
 }")).
-Eval vm_compute in ("<<<M1769>>>" ++ check (runes_of_ascii "packet Logon {
-    repeatCount {
-        BodyLength `crlf
-        line`,
+Eval vm_compute in ("<<<M1337>>>" ++ check (runes_of_ascii "options {
+    ArrayPrefixLenType = u64;
+    FixedStringPadFromLeft = true;
+    FixedStringPadChar = '0';
+}
+packet Quote {
+}
+packet Ack {
+    repeat InNote66 {
+        u8 pad0,
     },
-    zchar a1 `u8 x,`,
-    match Foo as Foo {
-        ""\n"" : i8i8,
-        [
-            ""abc"",
-            ""CRC32""
-        ] : crc,
-        [
-            3, 42, 1, 255, ""x y"",
-            ""`tick`"", ""a\""b"", ""CRC32""
-        ] : repeatCount,
-        [
-            1, 007, 007, 7, 255,
-            ""\n"", ""// no comment""
-        ] : uint8x,
-        00 : f32a,
+}
+packet Reject {
+}
+root packet Order {
+    Quote,
+    repeat Reject,
+    string venue,
+    string seqNo,
+    uint32 Ref,
+    u16 lastPx,
+    u32 clOrdID @lengthOf(Body),
+    match lastPx as Body {
+        190 : Reject,
+        186 : Quote,
+        22 : Ack,
     },
-    // a // b
-    uint16 Pad @lengthOf(uint8x) `doc`,
-}")).
+    u16 Flags @calculatedFrom(""CRC32""),
+}
+")).
 Eval vm_compute in ("<<<M1297>>>" ++ check (runes_of_ascii "packet A { // c2a
   // c2b
 u8
@@ -595,35 +592,23 @@ i64_
 `
 ` ,} root packet f32a { @tag( 255 )repeat u8 stringy, }
 ")).
-Eval vm_compute in ("<<<M1481>>>" ++ check (runes_of_ascii "MetaData BodyLength{
-
-    uint16
-leftPad`" ++ [233]%N ++ runes_of_ascii "`	// a // b
-
-  ,
-    uint8x
-    asx
-    , len
-
-    lengthOf	`// not a comment`
-, string
-uint8x 
-`doc` ,
-}  options
-	{
-
-i8i8
-	=
-0 lengthOf=
-0123456789
-
-; }packet
-	uint8x {
-    @lengthOf( pack)	float64
-	u8x @lengthOf( 
-asx 	 //x
-	) ,
-} ")).
+Eval vm_compute in ("<<<M35>>>" ++ check (runes_of_ascii "  packet Header
+{ @calculatedFrom( // a // b
+""a	b"" )
+char[
+    255] falsey `tab	here`,int8
+    // " ++ [27880; 37322]%N ++ runes_of_ascii "
+    u
+`doc` , float32 lengthOf
+    @calculatedFrom(
+""a	b""  )
+    // a // b
+    , @rightPad (
+' '  ) @tag( 3
+) float64 asx
+    ,
+int8 metadata @lengthOf(zchar )// a // b
+,Pad f32a , }")).
 Eval vm_compute in ("<<<M1291>>>" ++ check (runes_of_ascii "// top
 root
     // c0
